@@ -14,7 +14,7 @@ Section F64Sched.
 
   (* a checked run (any trees) that raises no flag is the run of EVERY family of split trees *)
   Theorem kmeans_f64_chk_sched_indep : forall T1 T2 P rot D cfg points weights part r,
-    kmeans A (reds_chk A sum_ok_f64 val_ok_f64 T1 P) rot D cfg points weights part = r ->
+    kmeans A (reds_chk A sum_ok_f64 val_ok_f64 cmp_ok_f64 T1 P) rot D cfg points weights part = r ->
     r <> Panic 99 ->
     kmeans A (reds_tree A T2 P) rot D cfg points weights part = r.
   Proof.
@@ -27,7 +27,7 @@ Section F64Sched.
   Qed.
 
   Theorem kmeans_f64_sched_indep : forall T0 T1 T2 P rot D cfg points weights part,
-    kmeans A (reds_chk A sum_ok_f64 val_ok_f64 T0 P) rot D cfg points weights part <> Panic 99 ->
+    kmeans A (reds_chk A sum_ok_f64 val_ok_f64 cmp_ok_f64 T0 P) rot D cfg points weights part <> Panic 99 ->
     kmeans A (reds_tree A T1 P) rot D cfg points weights part =
     kmeans A (reds_tree A T2 P) rot D cfg points weights part.
   Proof.
